@@ -25,6 +25,7 @@ come out of the parser: there the value is the field's lines with the indentatio
 -/
 namespace Deb822Verif.Props.C15
 open Deb822Verif Deb Node Text Typed RelSpec
+open Deb822Verif.Props.C04
 
 /-! ## 1 — the rows of the relations shape -/
 
@@ -393,5 +394,100 @@ example : ∃ g s, g ∈ Gen.Accessors.rows ∧ g.kind = .get ∧ isRelRow g = t
   refine ⟨(findRow "control.Binary".toList "depends".toList).get (by decide +kernel),
     (findRow "control.Binary".toList "set_depends".toList).get (by decide +kernel), ?_⟩
   decide +kernel
+
+/-! ## 4 — set, PRINT, read again
+
+`Entry::new` writes every line after the first behind one space.  For a value whose lines are
+non-empty, free of CR and do not start with a space, a tab or (after the first) `#` — `ValidValue`,
+the domain of the C04 re-read theorems; it contains every non-empty value the lossless reader
+returns for a well-formed document (`validValue_parsed`) — the printed paragraph reads back with
+exactly that value.  (A text with indentation of its own, `"a,\n b"`, is laid out as `"a,\n  b"` and
+reads back as `"a,\nb"`: another layout of the same field, see section 5.) -/
+
+/-- the names of the relations rows are valid deb822 field names -/
+theorem C15_rel_names_valid :
+    ∀ r ∈ Gen.Accessors.rows, isRelRow r = true → ∀ k ∈ r.names, Spec.ValidKey k := by decide +kernel
+
+/-- the reading of a relations getter on a paragraph node whose field `k` has the text of a
+    well-formed field -/
+theorem rel_get_on (g : Row) (hr : isRelRow g = true) (hop : g.op = .get) (k : Str) (hn : g.names = [k])
+    (cs : List DNode) (f : FieldA) (hwf : f.WF) (h : lget (pitems cs) k = some f.str) :
+    getSem g true cs = .text f.str
+      ∧ relGetRelaxed g cs = some (f.tree, [])
+      ∧ (f.hasSubstvar = false → relGet g cs = some (.ok f.tree)) := by
+  have hf : firstOf cs g.names = some f.str := by rw [hn, firstOf_single, C15_refine_get]; exact h
+  obtain ⟨e1, e2, e3⟩ := (relGet_refines g hr hop cs).1 f.str hf
+  obtain ⟨v1, v2, _, _⟩ := rel_value f hwf
+  exact ⟨e1, by rw [e3, v2], fun hsv => by rw [e2, v1 hsv]⟩
+
+theorem para_node_eta (p : Spec.ParaS) : Node.node Kind.PARAGRAPH p.node.children = p.node := rfl
+
+/-- **set, print, parse, get** on a paragraph that is the parse of a well-formed paragraph `p`: for
+    a well-formed field `f` whose text is a `ValidValue`, the paragraph printed after `set_X(f)` is
+    accepted by the deb822 reader without error, it has one paragraph `q`, the getter on `q` finds the
+    text `f.str` again and its value is `f.tree` exposing `f.view` (strict reading when `f` has no
+    substitution variable, relaxed reading in any case); every other field of `q` reads as in `p` -/
+theorem C15_rel_set_reread (g : Row) (hg : g ∈ Gen.Accessors.rows) (hk : g.kind = .get)
+    (hr : isRelRow g = true) (s : Row) (hs : setterOf g = some s)
+    (p : Spec.ParaS) (hp : p.WF) (ht : p.Term false)
+    (f : FieldA) (hwf : f.WF) (hv : Spec.ValidValue f.str) :
+    ∃ k cs', g.names = [k] ∧ setSem s (.text f.str) p.node.children = some cs'
+      ∧ ∃ d : Spec.DocS, d.WF ∧ d.str = textList cs' ∧ Deb.parse (textList cs') = ⟨d.tree, []⟩
+        ∧ ∃ q : Spec.ParaS, paragraphs d.tree = [q.node]
+          ∧ getSem g true q.node.children = .text f.str
+          ∧ relGetRelaxed g q.node.children = some (f.tree, [])
+          ∧ (f.hasSubstvar = false → relGet g q.node.children = some (.ok f.tree))
+          ∧ (∀ k', k' ≠ k → Deb.get q.node k' = Deb.get p.node k')
+          ∧ Rel.accEntries f.tree = some f.view ∧ Rel.substvars f.tree = f.substvars := by
+  obtain ⟨hop, _, _, _, _⟩ := rel_row_facts g hg hr hk
+  obtain ⟨k, h1, _, h3, _, _⟩ := rel_pair_step g hg hk hr s hs p.node.children f.str
+  have hkv : Spec.ValidKey k := C15_rel_names_valid g hg hr k (by rw [h1]; simp)
+  obtain ⟨d, d1, d2, d3, _, d5⟩ := C04_reread_para_set p hp ht k f.str hkv hv
+  refine ⟨k, _, h1, h3, d, d1, d2, d3, ?_⟩
+  have hpar : (d.paras.map fun pg => pg.1.node).map items = [ListSpec.set p.content k f.str] := by
+    rw [← Deb.paragraphs_tree]; exact d5
+  cases hps : d.paras with
+  | nil => rw [hps] at hpar; simp at hpar
+  | cons pg rest =>
+    cases rest with
+    | cons _ _ => rw [hps] at hpar; simp at hpar
+    | nil =>
+      rw [hps] at hpar
+      simp only [List.map_cons, List.map_nil, List.cons.injEq, and_true] at hpar
+      have hq : pitems pg.1.node.children = ListSpec.set p.content k f.str := hpar
+      obtain ⟨_, _, v3, v4⟩ := rel_value f hwf
+      have hl : lget (pitems pg.1.node.children) k = some f.str := by rw [hq, lget_set_same]
+      obtain ⟨e1, e2, e3⟩ := rel_get_on g hr hop k h1 pg.1.node.children f hwf hl
+      refine ⟨pg.1, by rw [Deb.paragraphs_tree, hps]; rfl, e1, e2, e3, ?_, v3, v4⟩
+      intro k' hk'
+      have a1 : Deb.get pg.1.node k' = lget (pitems pg.1.node.children) k' := C15_refine_get _ k'
+      have a2 : Deb.get p.node k' = lget (pitems p.node.children) k' := C15_refine_get _ k'
+      rw [a1, a2, hq, lget_set_other _ _ _ _ hk', pitems_para]
+
+/-! ## 5 — the getter on a paragraph that comes out of the parser -/
+
+/-- **getter on parsed text.**  `d` a well-formed deb822 document, `p` its `i`-th paragraph, `g` a
+    relations getter whose field has in `p` the value text `f.str` of a well-formed field `f` (the
+    value as `Paragraph::get` returns it: the field's lines, indentation removed, joined by `\n` —
+    `ParaS.content`, `C03_lookup`): parsing `d.str` gives no error, its `i`-th paragraph is `p.node`,
+    and on it the getter finds `f.str` and its value is `f.tree` exposing `f.view` -/
+theorem C15_rel_get_parsed (g : Row) (hg : g ∈ Gen.Accessors.rows) (hk : g.kind = .get)
+    (hr : isRelRow g = true) (d : Spec.DocS) (hd : d.WF) (i : Nat) (p : Spec.ParaS) (gs : List Spec.Gap)
+    (hp : d.paras[i]? = some (p, gs)) (f : FieldA) (hwf : f.WF)
+    (hval : ∃ k, g.names = [k] ∧ lget p.content k = some f.str) :
+    (Deb.parse d.str).errors = []
+      ∧ (paragraphs (Deb.parse d.str).tree)[i]? = some p.node
+      ∧ getSem g true p.node.children = .text f.str
+      ∧ relGetRelaxed g p.node.children = some (f.tree, [])
+      ∧ (f.hasSubstvar = false → relGet g p.node.children = some (.ok f.tree))
+      ∧ Rel.accEntries f.tree = some f.view ∧ Rel.substvars f.tree = f.substvars := by
+  obtain ⟨hop, _, _, _, _⟩ := rel_row_facts g hg hr hk
+  obtain ⟨k, hn, hl⟩ := hval
+  obtain ⟨_, _, v3, v4⟩ := rel_value f hwf
+  have hl' : lget (pitems p.node.children) k = some f.str := by rw [pitems_para]; exact hl
+  obtain ⟨e1, e2, e3⟩ := rel_get_on g hr hop k hn p.node.children f hwf hl'
+  refine ⟨by rw [C03.C03_parse_inverts d hd], ?_, e1, e2, e3, v3, v4⟩
+  rw [C03.C03_parse_inverts d hd, Deb.paragraphs_tree]
+  simp [hp]
 
 end Deb822Verif.Props.C15
